@@ -27,7 +27,8 @@ import tlcrun
 from common import *
 
 PROP = "C10"
-ASIS = dict(FixFirstPush=False, FixShallowSum=False, WideFields=False)
+# the tree carries the first-push repair (fix: C10, see findings/known_findings.jsonl)
+ASIS = dict(FixFirstPush=True, FixShallowSum=False, WideFields=False)
 FIXED = dict(FixFirstPush=True, FixShallowSum=True, WideFields=True)
 FORMULAS = ["RoundTrip", "DriftRejected", "Applied"]
 
@@ -45,7 +46,8 @@ def mc_plan(tier):
     runs = []
     if tier == "quick":
         runs.append(("as-is, sound domain: n<=2, deep, hello/next, deltas 0..4, chains of 2",
-                     dict(ASIS, NMax=2, **small), ["Inv_Sound"], None, 8))
+                     dict(ASIS, NMax=2, **dict(small, DQs="<-DQTwo", BaseM="<-BaseMZero")),
+                     ["Inv_Sound"], None, 8))
         runs.append(("repaired, everything: n<=2, deep+shallow, all kinds, deltas {0,1,2^32}, "
                      "dq {1,65537}, dm {0,257}", dict(FIXED, NMax=2, **mix), ["Inv_All"], None, 4))
         pn = 2
@@ -59,7 +61,8 @@ def mc_plan(tier):
                      ["Inv_Sound"], None, 8))
         runs.append(("as-is, sound domain: n<=2, all 255 drift residues",
                      dict(ASIS, NMax=2, **dict(small, DriftSet="<-DriftAll", Deltas="<-DeltaMix",
-                                                MutsSet="<-BoolF")),
+                                                MutsSet="<-BoolF", DQs="<-DQTwo",
+                                                BaseM="<-BaseMZero")),
                      ["Inv_Sound"], None, 4))
         runs.append(("as-is, sound domain with boundary values: n<=2, deltas {0,1,2^32-1,2^32,"
                      "2^32+1}, dq up to 65537, dm up to 257",
@@ -197,7 +200,8 @@ def case_of(x):
 
 def generate(binary, tier, outdir, sd):
     if tier == "quick":
-        plan = [("exh", ["-nmin", "1", "-nmax", "4", "-maxd", "4"], 16),
+        plan = [("exh", ["-nmin", "1", "-nmax", "3", "-maxd", "4"], 16),
+                ("exh", ["-nmin", "4", "-nmax", "4", "-maxd", "3"], 16),
                 ("first", ["-nmin", "1", "-nmax", "3", "-maxd", "2"], 16),
                 ("rnd", ["-n", "6000"], 16)]
     else:
@@ -208,7 +212,7 @@ def generate(binary, tier, outdir, sd):
     nshard = max(p[2] for p in plan)
     files = [os.path.join(outdir, "all.%d.ndjson" % k) for k in range(nshard)]
     for k, (mode, args, shards) in enumerate(plan):
-        pref = os.path.join(outdir, mode)
+        pref = os.path.join(outdir, "%s%d" % (mode, k))
         rc, out = run([binary, "rpcdiff", "-mode", mode, "-seed", str(sd * 100 + k), "-out", pref,
                        "-shards", str(nshard)] + args, timeout=1200)
         if rc != 0:
@@ -320,8 +324,8 @@ def check(tier):
             rule="case = (state count 1..6, allow/skip lists, schema synced or not, deep/shallow, "
                  "per-mutation chain or not, kind of first snapshot hello|next|nil|short, first "
                  "source clock, successive source clock(s)); exhaustive part: every tracked "
-                 "subset x mode x every per-state delta vector in 0..4 for n<=4 (quick) / n<=5 "
-                 "(thorough), first-push and grown-schema cases with every value vector in 0..2; "
+                 "subset x mode x every per-state delta vector in 0..4 for n<=3 and 0..3 for n=4 "
+                 "(quick) / 0..4 for n<=5 (thorough), first-push and grown-schema cases with every value vector in 0..2; "
                  "sampled part: n<=6, random lists with unknown/duplicate names, deltas at the "
                  "2^8/2^16/2^32 boundaries, chains of 1..4 per-mutation updates; every case is also "
                  "applied to 2..7 drifted mirrors incl. the drift that makes a rejected message "
